@@ -4,6 +4,7 @@ package main
 import (
 	"os"
 
+	_ "verif/harness/checks/artifacts"
 	_ "verif/harness/checks/balance"
 	_ "verif/harness/checks/container"
 	_ "verif/harness/checks/deployc"
